@@ -61,7 +61,7 @@ pub fn binary_section(b: &[u8]) -> Option<(usize, usize)> {
         return None;
     }
     let mut pos = eol + 1;
-    let mut next_line = |pos: &mut usize| -> Option<&[u8]> {
+    let next_line = |pos: &mut usize| -> Option<&[u8]> {
         let rest = &b[*pos..];
         let e = rest.iter().position(|&c| c == b'\n')?;
         let line = &rest[..e];
@@ -420,7 +420,7 @@ fn corrupt(c: &ExactCase) -> Option<Corrupted> {
                 .iter()
                 .filter(|t| t.role == Role::Keyword)
                 .filter(usable)
-                .filter(|t| !is_log)
+                .filter(|_t| !is_log)
                 .filter(|t| {
                     // followed by exactly spaces/tabs and then another token on the same line
                     let mut e = t.end;
